@@ -102,6 +102,7 @@ type Use struct {
 	Stmt   string `json:"stmt"`
 	Intent UseOut `json:"intent"`
 	Fork   UseOut `json:"fork"`
+	F3     UseOut `json:"f3"`
 }
 
 type Vector struct {
@@ -445,6 +446,20 @@ func replay(args []string) {
 						add("listing", "program", "", v.Prog, prog)
 					}
 				}
+				// the constructor that admits custom functions builds the same program (no custom function is in play)
+				func() {
+					defer func() {
+						if r := recover(); r != nil {
+							add("variant", "panic", "", "a machine", fmt.Sprint(r))
+						}
+					}()
+					mc, ec := path_eval.NewPathEvalMachineWithCustomFns(text, mapFn, "verif:1", nil)
+					if ec != nil || mc == nil {
+						add("variant", "rejected", "", "NewPathEvalMachineWithCustomFns", fmt.Sprint(ec))
+					} else if mc.PrintMachine() != listing || mc.GetExpr() != text || mc.GetLocation() != "verif:1" {
+						add("variant", "program", "", "NewPathEvalMachineWithCustomFns", mc.PrintMachine())
+					}
+				}()
 				for vi, vt := range v.Variants {
 					m2, e2, p2 := build(xpm.ToReal(vt))
 					if p2 != nil || e2 != nil || m2 == nil {
@@ -510,6 +525,8 @@ func replay(args []string) {
 								if u.Fork.Error || u.Fork.CompilerError > 0 {
 									as = "F2"
 								}
+							} else if got == u.F3 {
+								as = "F3"
 							}
 							add("use", u.Stmt+"@"+h, as, u.Intent, map[string]interface{}{"out": got, "detail": detail})
 						}
@@ -554,6 +571,9 @@ type UVec struct {
 		Space, Local, Tt string
 	} `json:"t"`
 	Want json.RawMessage `json:"want"`
+	FCfg bool            `json:"fcfg"`
+	TCfg bool            `json:"tcfg"`
+	TOpd bool            `json:"topd"`
 	// warn
 	W     *WRec  `json:"w"`
 	E     *WRec  `json:"e"`
@@ -745,6 +765,11 @@ func utils(args []string) {
 					tgt := xutils.NewXTarget(xmlName(v.T.Space, v.T.Local), tt)
 					if got := xutils.MatchFilter(flt, tgt); got != want {
 						report(UMism{Kind: "filter", Op: "MatchFilter", In: map[string]interface{}{"f": v.F, "t": v.T}, Want: want, Got: got})
+					}
+					if flt.Name() != xmlName(v.F.Space, v.F.Local) || flt.MatchConfigOnly() != v.FCfg || tgt.Name() != xmlName(v.T.Space, v.T.Local) ||
+						tgt.IsConfig() != v.TCfg || tgt.IsOpd() != v.TOpd {
+						report(UMism{Kind: "filter", Op: "XFilter/XTarget accessors", In: map[string]interface{}{"f": v.F, "t": v.T},
+							Want: []bool{v.FCfg, v.TCfg, v.TOpd}, Got: []bool{flt.MatchConfigOnly(), tgt.IsConfig(), tgt.IsOpd()}})
 					}
 					// the constructors agree with the general one
 					if v.F.On == "full" && xutils.MatchFilter(xutils.NewXFilterFullTree(xmlName(v.F.Space, v.F.Local)), tgt) != want {
